@@ -4,7 +4,7 @@ Rules (DESIGN §4/C01): dir-count, stream-unique, count-array, index-bound, rva-
 pos-append.  `one-flush-owner` is C19/stale-field (run by rules.c19, re-exported here).
 """
 from engine.mir import CalleeView, norm, AnchorMissing
-from engine.origin import Origin, strip, core, nosite, show, walk, is_const
+from engine.origin import Origin, strip, core, nosite, show, walk, is_const, alts, field_of
 from engine.paths import Exits, conditions, must_pass
 from engine import lenalg as LA
 from engine.summ import return_origins
@@ -675,8 +675,7 @@ def rule_rva_origin(ctx):
 
 
 # ---------------------------------------------------------------------------------- pos-append
-def rule_pos_append(ctx):
-    R = "C01/pos-append"
+def rule_pos_append(ctx, R="C01/pos-append"):
     b = ctx.body(R, "linux::sections::thread_list_stream::fill_thread_stack")
     if b is None:
         return
@@ -713,6 +712,14 @@ def rule_pos_append(ctx):
                 if not frontier:
                     good = False
                     msgs.append("no append follows the recorded position")
+                else:
+                    # ... and no success return in between: a descriptor whose bytes are never appended names whatever comes next
+                    ex_ = Exits(b)
+                    for ob in ex_.ok_blocks():
+                        if must_pass(b, pos_b, {ob}, set(frontier)) is not None:
+                            good = False
+                            msgs.append("a success return (%s) is reachable after the position was recorded without the bytes having been appended" % b.where(ob))
+                            break
                 ctx.check(good, R, (b.short, "position-rva#%d" % n), b.where(bi, si),
                           "RVA taken from Buffer::position() is followed on every path by the append of exactly the described bytes",
                           "; ".join(msgs))
@@ -893,7 +900,40 @@ def rule_stream_attempted(ctx, R="C01/every-stream-attempted", only=None):
                   "%s can be skipped: a success path of generate_dump does not call it — the stream is silently absent from that dump" % suffix)
 
 
+def rule_written_records(ctx, R="C01/written-records"):
+    """the offsets checked where they are assigned must still be in the record when it is written: for every record with an offset
+    field that is handed to set_value / set_value_at / alloc_with_val, every alternative of the written value still carries a
+    definition of that field (a record that is reset or replaced wholesale on some path loses its offset: 0 names the header)."""
+    prog = ctx.prog
+    n = 0
+    for b in prog.bodies:
+        if b.short.startswith("mem_writer::") or "_serde" in b.short:
+            continue
+        o = None
+        for bi, t in b.calls(lambda c: (c.short or "") in ("mem_writer::MemoryWriter::set_value", "mem_writer::MemoryArrayWriter::set_value_at", "mem_writer::MemoryWriter::alloc_with_val")):
+            inst = t["callee"].get("inst") or ""
+            rec = [k for k in RVA_FIELDS if ("::" + k + ">") in inst or ("::" + k + ",") in inst]
+            if not rec or rec[0] in ("MINIDUMP_LOCATION_DESCRIPTOR",):
+                continue
+            o = o or Origin(b)
+            a = o.call_args(bi)
+            val = a[1] if (t["callee"].get("def") or "").endswith("alloc_with_val") else a[2]
+            for fld in RVA_FIELDS[rec[0]]:
+                n += 1
+                def undefined(x):
+                    fo = field_of(x, fld)
+                    # a bare projection of the alternative itself: nothing on this path assigned the field
+                    return fo is None or (fo[0] == "field" and fo[2] == fld and nosite(strip(fo[1])) == nosite(strip(x)) and strip(x)[0] in ("call", "const", "agg") and not (strip(x)[0] == "agg"))
+                missing = [x for x in alts(val) if strip(x)[0] != "loop" and undefined(x)]
+                k = sum(1 for x, _ in b.calls(lambda c: (c.short or "") == (CalleeView(t["callee"]).short or "")) if x <= bi)
+                ctx.check(not missing, R, ("::".join(b.short.split("::{closure")[0].split("::")[-2:]), rec[0], fld, k), b.where(bi),
+                          "%s.%s is defined on every path to the write" % (rec[0], fld),
+                          "%s.%s is lost on a path to the write: the record is %s there (offset 0 would name the header)" % (rec[0], fld, show(missing[0])[:80] if missing else ""))
+    ctx.floor(R, "offset fields of written records", n, 8)
+
+
 def run(ctx):
+    rule_written_records(ctx)
     rule_stream_attempted(ctx)
     rule_size_origin(ctx)
     rule_dir_count(ctx)
